@@ -24,6 +24,8 @@ type Clause struct {
 	Line  int
 	Free  bool // 'free' clause: assumed, never checked (listed as assumption)
 	FromType bool // inherited from the contract of a function type the function implements
+	Before string // backedge clauses: only on back edges taken before this body local is declared
+	After  string // backedge clauses: only on back edges taken after this body local is declared
 }
 
 type ParamDecl struct {
@@ -44,6 +46,8 @@ type Contract struct {
 	Modifies  []string // raw designators; nil means "infer", ["nothing"] -> none
 	HasMod    bool
 	Loops     map[int][]*Clause // loop ordinal -> invariants
+	LoopEdges map[int][]*Clause // loop ordinal -> back-edge clauses
+	SafetyOnly map[string]bool  // property -> only safety-kind obligations of this function belong to its check
 	CallAsserts []*CallAssert
 	NoCanary  bool
 	Sweep     bool // safety-only sweep requested
@@ -285,6 +289,19 @@ func (sp *Spec) parseFile(path string) error {
 		case "prop":
 			ps := strings.Fields(strings.ReplaceAll(rc.text, ",", " "))
 			if cur != nil {
+				// "Cxx:safety": the function belongs to Cxx's check with its safety obligations only (no panic,
+				// allocation bounds, callee preconditions); its functional clauses are checked under the other
+				// properties it lists
+				for i, p := range ps {
+					if strings.HasSuffix(p, ":safety") {
+						p = strings.TrimSuffix(p, ":safety")
+						ps[i] = p
+						if cur.SafetyOnly == nil {
+							cur.SafetyOnly = map[string]bool{}
+						}
+						cur.SafetyOnly[p] = true
+					}
+				}
 				cur.Props = append(cur.Props, ps...)
 			} else if curLemma != nil {
 				curLemma.Props = append(curLemma.Props, ps...)
@@ -358,6 +375,52 @@ func (sp *Spec) parseFile(path string) error {
 				return fmt.Errorf("%s:%d: loop outside func", path, rc.line)
 			}
 			parts := strings.SplitN(rc.text, " ", 3)
+			if len(parts) == 3 && parts[1] == "backedge" {
+				// loop K backedge [label] {props} [before X :] E
+				// E must hold whenever control goes back to the head of loop K; it is evaluated where the edge
+				// leaves the body, so locals of the body are in scope. 'before X' restricts the clause to the
+				// back edges taken before the body's local X has been declared (e.g. an early 'continue').
+				k, err := strconv.Atoi(parts[0])
+				if err != nil {
+					return fmt.Errorf("%s:%d: bad loop ordinal", path, rc.line)
+				}
+				txt := parts[2]
+				before, after := "", ""
+				for _, kw := range []string{"before ", "after "} {
+					bi := strings.Index(txt, "} "+kw)
+					if bi >= 0 {
+						bi += 2
+					} else if bi = strings.Index(txt, "] "+kw); bi >= 0 {
+						bi += 2
+					} else if strings.HasPrefix(txt, kw) {
+						bi = 0
+					}
+					if bi < 0 {
+						continue
+					}
+					j := strings.Index(txt[bi:], ":")
+					if j < 0 {
+						continue
+					}
+					name := strings.TrimSpace(txt[bi+len(kw) : bi+j])
+					txt = strings.TrimSpace(txt[:bi]) + " " + strings.TrimSpace(txt[bi+j+1:])
+					if kw == "before " {
+						before = name
+					} else {
+						after = name
+					}
+				}
+				c, err := mk("backedge", rawClause{"backedge", strings.TrimSpace(txt), rc.line})
+				if err != nil {
+					return err
+				}
+				c.Before, c.After = before, after
+				if cur.LoopEdges == nil {
+					cur.LoopEdges = map[int][]*Clause{}
+				}
+				cur.LoopEdges[k] = append(cur.LoopEdges[k], c)
+				break
+			}
 			if len(parts) < 3 || parts[1] != "invariant" {
 				return fmt.Errorf("%s:%d: expected 'loop K invariant E'", path, rc.line)
 			}
